@@ -68,8 +68,8 @@ theorem apiUpdateJobStatus_fresh (s : Sys) (jo : JobObj) (newJob : Job) (h : Qui
 
 /-! ### the pod a create makes -/
 
-theorem podTask_newPod (jo : JobObj) (idx : PIndex) (retry : Int) (t : Time) :
-    podTask (newPod jo idx retry t) = some
+theorem podTask_newPod {now : Time} (jo : JobObj) (idx : PIndex) (retry : Int) (t : Time) :
+    podTask now (newPod jo idx retry t) = some
       { name := taskName jo.name idx.hash retry,
         ref := { name := taskName jo.name idx.hash retry, creationTimestamp := some t,
                  status := { state := .starting, result := .none, reason := "" },
@@ -258,7 +258,7 @@ theorem syncCreateTasks_adopt (s : Sys) (jo : JobObj) (T : List Task) (h : Simpl
     (hlt : nextRetryIndex s.d jo.job.status.tasks s.d.hash < jo.job.maxAttempts)
     (hdue : DueReq s.clock (theReq s.d jo.job).earliest) (p : PodObj) (t : Task)
     (htaken : findPod s.pods (taskName jo.name s.d.hash (theReq s.d jo.job).retryIndex) = some p)
-    (hcache : s.podCache = s.pods) (hown : p.ownerUid = some jo.uid) (ht : podTask p = some t) :
+    (hcache : s.podCache = s.pods) (hown : p.ownerUid = some jo.uid) (ht : podTask s.clock p = some t) :
     syncCreateTasks s jo jo.job T =
       ((updateTaskRefStatus (armEarliest (afterExists s jo (theReq s.d jo.job).retryIndex) (jobKey jo)
           (theReq s.d jo.job).earliest) (jobKey jo) jo.job (T ++ [t])).1,
